@@ -48,7 +48,7 @@ class Contract:
     def __init__(self, name, params, returns=None, requires=(), ensures=(), pure=False, reads="*",
                  modifies=(), loops=None, raises=None, props=(), verify=True, note="", let=None,
                  observer=False, inline_calls=(), fresh_result=False, decreases=None, trusted=False,
-                 allow_raise=False, ghosts=None):
+                 allow_raise=False, ghosts=None, inst_depth=4):
         self.name = name
         self.params = dict(params)
         self.returns = returns
@@ -68,6 +68,7 @@ class Contract:
         self.inline_calls = list(inline_calls)
         self.fresh_result = fresh_result
         self.allow_raise = allow_raise
+        self.inst_depth = inst_depth   # how deep callee/observer ensures are instantiated inside specifications
         self.ghosts = ghosts or {}   # ghost results: name -> kind (final value of a ghost loop variable)
 
 
@@ -106,13 +107,13 @@ def classinv(cls, *exprs):
 
 
 class Lemma:
-    def __init__(self, name, fn, props, note=""):
-        self.name, self.fn, self.props, self.note = name, fn, list(props), note
+    def __init__(self, name, fn, props, note="", inst_depth=4):
+        self.name, self.fn, self.props, self.note, self.inst_depth = name, fn, list(props), note, inst_depth
 
 
-def lemma(name, props, note=""):
+def lemma(name, props, note="", inst_depth=4):
     def deco(fn):
-        LEMMAS[name] = Lemma(name, fn, props, note)
+        LEMMAS[name] = Lemma(name, fn, props, note, inst_depth)
         return fn
     return deco
 
